@@ -661,7 +661,7 @@ func parentMain(fl *evid.Flags) int {
 				run.Inconclusive("transition mode: mutation never delivered alone as its event: " + mu)
 			}
 		}
-		for _, c := range []string{"transitions_via_events", "transitions_via_resync", "flows_compared-after-events",
+		for _, c := range []string{"single_mutation_pod-add_first_event_has_ip", "transitions_via_events", "transitions_via_resync", "flows_compared-after-events",
 			"flows_compared-after-events+resync", "flows_compared-after-resync"} {
 			if run.Counter(c) == 0 {
 				run.Inconclusive("transition mode: never observed: " + c)
